@@ -202,4 +202,16 @@ REGISTRY = {
         'explanation': 'per-call outcome and clean-up contracts discharged by z3',
         'not_decided': ['which byte strings the grammar functions reject (bounded, C13)', 'syntactic validity of the error response (C15 framing)'],
     },
+    'C13': {
+        'modules': ['contracts.http_parser'], 'level': 'proof',
+        'level_text': 'Stash discipline of HttpParser per phase, for every stash and every new data: the first line and the header block '
+                      'are searched in stash + data, an incomplete unit is kept whole without error, a complete one is consumed from the '
+                      'front; identity bodies by an additive arithmetic contract; chunked bodies consume a chunk only when size line, '
+                      'payload and CRLF are present. The Lean lemma Seg.segmentation_invariant turns the per-step facts into equality '
+                      'for all segmentations. Grammar functions are opaque (bounded purity/segmentation stand-in, labelled).',
+        'level_note': 'trusted: correspondence between the Lean step and the loop body; unicode_escape/urlsplit/regex grammar opaque; '
+                      'web/http.py and protocols/http.py callers use the parser through its contract (C14).',
+        'explanation': 'parser stash-discipline contracts discharged by z3/cvc5 + Lean lemma; grammar bounded',
+        'not_decided': ['request-line/header grammar (opaque functions; bounded stand-in)', 'client-side read-until-close bodies', 'content-encoding'],
+    },
 }
